@@ -26,11 +26,13 @@ if SRC in sys.path:
     sys.path.remove(SRC)
 sys.path.insert(0, SRC)
 
+import envsim  # noqa: E402
 import fsim  # noqa: E402
 import model  # noqa: E402
 import sched  # noqa: E402
 
 FS = fsim.FsSim()
+ENV = envsim.EnvSim()
 
 
 class Harness(Exception):
@@ -1028,9 +1030,10 @@ def main():
     log_fd = os.dup(1)
     stray_path = os.path.join(os.environ.get("VERIF_SCRATCH", "/tmp"), "stray-fd1.bin")
     os.makedirs(os.path.dirname(stray_path), exist_ok=True)
-    stray = os.open(stray_path, os.O_WRONLY | os.O_CREAT | os.O_TRUNC, 0o600)
+    stray = os.open(stray_path, os.O_WRONLY | os.O_CREAT | os.O_TRUNC | os.O_APPEND, 0o600)
     os.dup2(stray, 1)
     os.close(stray)
+    os.environ["VERIF_FD1_PATH"] = stray_path
     devnull = os.open(os.devnull, os.O_RDONLY)
     os.dup2(devnull, 0)
     os.close(devnull)
@@ -1043,6 +1046,8 @@ def main():
     FS.add_root(os.path.join(SRC, "multidecoder", "keywords"), "shipped")
     FS.add_root(scratch, "scratch")
     FS.install()
+    ENV.configure(scn["worlds"][widx].get("env_seed", 0))
+    ENV.install()
     out = {"ok": True}
     try:
         cls = {"C09": W09, "C18": W18, "C20": W20}[scn["property"]]
@@ -1054,7 +1059,9 @@ def main():
         out = {"ok": False, "harness_error": f"{type(e).__name__}: {e}", "traceback": traceback.format_exc()[-3000:]}
     finally:
         FS.uninstall()
+        ENV.uninstall()
     out["fs"] = FS.counters_json()
+    out["envsim"] = dict(ENV.counters)
     try:
         sys.stdout.flush()
     except Exception:  # noqa: BLE001
